@@ -204,6 +204,7 @@ def defaultValid (f : Field) : Bool :=
 def rowStrict (f : Field) : Bool :=
   (lossless f.load f.save || allowed f) &&
   loadedIffSaved f &&
+  (!(lossless f.load f.save) || f.sameField) &&
   (!(f.save == .omitIfDefault || f.save == .omitIfDefaultDur) || (f.omitC != .unknown && f.omitC == f.dflt)) &&
   secretHidden f &&
   defaultValid f &&
